@@ -230,11 +230,11 @@ def run(ctx):
     for fl in flavours(ctx):
         ctx.unit = fl
         ctx.doc('C05.5', 'native API forwarding: each public entry point of this property reaches the implementation of the same name with its parameters in order and returns its result (sibling slips such as trylock -> lock, signal -> broadcast, swapped arguments)')
-        lib.native_forwarding(ctx, 'C05.5', fl, lambda n: n.startswith(('myth_cond_', 'myth_condattr_')), floor=6)
-        rule_init_complete(ctx, fl)
-        rule1_cb_order(ctx, fl)
-        rule2_wait(ctx, fl)
-        rule3_signal(ctx, fl)
+        ctx.attempt(lib.native_forwarding, ctx, 'C05.5', fl, lambda n: n.startswith(('myth_cond_', 'myth_condattr_')), floor=6)
+        ctx.attempt(rule_init_complete, ctx, fl)
+        ctx.attempt(rule1_cb_order, ctx, fl)
+        ctx.attempt(rule2_wait, ctx, fl)
+        ctx.attempt(rule3_signal, ctx, fl)
 
 
 SYNC = 'src/myth_sync_func.h'
